@@ -690,6 +690,168 @@ theorem Act.null_resets (k : Kind) (tab : List NamedColor) (a : Act) (hn : a.nul
   case align f => exact ⟨trivial, Obj.get_put _ _ _ hw⟩
   case clip f => exact ⟨trivial, Obj.get_put _ _ _ hw⟩
 
+/-! ### set then get: points, coordinates, axis intervals -/
+
+/-- row `i` shows the point whose coordinates are members `f`, `f + 1` -/
+def Kind.pointRow (k : Kind) (i f : Nat) : Bool :=
+  match k.gets[i]? with
+  | some g => g.field == f && g.ty == -2 &&
+      (match k.logAt with | some (idx, _, _) => idx != i | none => true) &&
+      (match k.clipAlias with | some (nm, _) => nm != g.name | none => true)
+  | none => false
+
+theorem Kind.getAt_point (k : Kind) (o : Obj) (i f : Nat) (h : k.pointRow i f = true) :
+    ∃ g, k.gets[i]? = some g ∧ k.getAt o i = some (g.name, .pt (o.get f).toFl (o.get (f + 1)).toFl) := by
+  unfold Kind.pointRow at h
+  cases hg : k.gets[i]? with
+  | none => simp [hg] at h
+  | some g =>
+    simp only [hg, Bool.and_eq_true, beq_iff_eq, bne_iff_ne, ne_eq] at h
+    obtain ⟨⟨⟨hf, hty⟩, hlog⟩, hclip⟩ := h
+    refine ⟨g, rfl, ?_⟩
+    unfold Kind.getAt Kind.readEntry
+    simp only [hg, hty, ↓reduceIte, hf]
+    cases hl : k.logAt with
+    | none =>
+      cases hc : k.clipAlias with
+      | none => rfl
+      | some t => obtain ⟨nm, names⟩ := t; simp [hc] at hclip; simp [hclip]
+    | some t =>
+      obtain ⟨idx, flags, bit⟩ := t
+      simp [hl] at hlog
+      cases hc : k.clipAlias with
+      | none => simp [hlog]
+      | some t => obtain ⟨nm, names⟩ := t; simp [hc] at hclip; simp [hclip, hlog]
+
+/-- **set then get, point handler** (member level) -/
+theorem Act.set_get_point (k : Kind) (tab : List NamedColor) (f : Nat) (lo hi : Fl) (rl : Bool) (o : Obj) (v : Str)
+    (tok : Nat) (hf : f + 1 < o.vals.length)
+    (hok : ((Act.fpoint f lo hi rl).run k tab o (.text (some v)) tok).ret.isOk = true) :
+    (∃ x y, Val.pt x y ∈ denote tab (.point lo hi) (o.get f) v ∧
+        ((Act.fpoint f lo hi rl).run k tab o (.text (some v)) tok).obj.get f = .flt x ∧
+        ((Act.fpoint f lo hi rl).run k tab o (.text (some v)) tok).obj.get (f + 1) = .flt y) ∨
+    (blank (some v) = true ∧
+        ((Act.fpoint f lo hi rl).run k tab o (.text (some v)) tok).obj.get f = k.dflt f ∧
+        ((Act.fpoint f lo hi rl).run k tab o (.text (some v)) tok).obj.get (f + 1) = k.dflt (f + 1)) := by
+  unfold Act.run at hok ⊢
+  simp only [denote] at hok ⊢
+  have hf0 : f < o.vals.length := by omega
+  cases hp : fpointText lo hi (some v) with
+  | none =>
+    right
+    have hv : v = [] := by
+      unfold fpointText at hp
+      cases v with
+      | nil => rfl
+      | cons c r => simp only [] at hp; (repeat' split at hp) <;> cases hp
+    subst hv
+    simp only [hp]
+    refine ⟨by simp [blank, skipSpaces], ?_, ?_⟩
+    · rw [Obj.get_put_ne _ _ _ _ (by omega), Obj.get_put _ _ _ hf0]
+    · rw [Obj.get_put _ _ _ (by rw [Obj.put_length]; exact hf)]
+  | val p n =>
+    obtain ⟨x, y⟩ := p
+    left
+    refine ⟨x, y, by simp, ?_, ?_⟩
+    · simp only [hp]; rw [Obj.get_put_ne _ _ _ _ (by omega), Obj.get_put _ _ _ hf0]
+    · simp only [hp]; rw [Obj.get_put _ _ _ (by rw [Obj.put_length]; exact hf)]
+  | err e => simp [hp, Ret.isOk] at hok
+  | unsup => simp [hp, Ret.isOk] at hok
+
+theorem hasBit_setBit (x : Int) (bit : Nat) (hb : bit ≠ 0) (h8 : bit &&& bit = bit) : hasBit (setBit x bit) bit = true := by
+  unfold hasBit setBit
+  simp only [Int.toNat_natCast, bne_iff_ne, ne_eq]
+  rw [Nat.and_or_distrib_right, h8]
+  intro h
+  have : bit ≤ (x.toNat &&& bit) ||| bit := Nat.right_le_or
+  omega
+
+/-- row `i` is the `intervals` row: member `f`, shown as `log` while flag `bit` of member `g` is set -/
+def Kind.logRow (k : Kind) (i f g bit : Nat) : Bool :=
+  match k.gets[i]? with
+  | some e => e.field == f && e.ty != -2 && k.logAt == some (i, g, bit) &&
+      (match k.clipAlias with | some (nm, _) => nm != e.name | none => true)
+  | none => false
+
+theorem Kind.getAt_log (k : Kind) (o : Obj) (i f g bit : Nat) (h : k.logRow i f g bit = true) :
+    ∃ e, k.gets[i]? = some e ∧
+      k.getAt o i = some (e.name, if hasBit (o.get g).toInt bit then .str (some logWord) else o.get f) := by
+  unfold Kind.logRow at h
+  cases hg : k.gets[i]? with
+  | none => simp [hg] at h
+  | some e =>
+    simp only [hg, Bool.and_eq_true, beq_iff_eq, bne_iff_ne, ne_eq] at h
+    obtain ⟨⟨⟨hf, hty⟩, hlog⟩, hclip⟩ := h
+    refine ⟨e, rfl, ?_⟩
+    unfold Kind.getAt Kind.readEntry
+    simp only [hg, hty, ↓reduceIte, hf, hlog, true_and]
+    cases hc : k.clipAlias with
+    | none => rfl
+    | some t => obtain ⟨nm, names⟩ := t; simp [hc] at hclip; simp [hclip]
+
+/-- **set then get, axis intervals** (shown value): an accepted text leaves the count it denotes (log mode off) or,
+    for the keyword, log mode; blank text leaves the default count with log mode off -/
+theorem Act.set_get_intervals (k : Kind) (tab : List NamedColor) (f g bit : Nat) (o : Obj) (v : Str) (tok : Nat)
+    (hf : f < o.vals.length) (hg : g < o.vals.length) (hfg : f ≠ g) (hb0 : bit ≠ 0) (hbb : bit &&& bit = bit)
+    (hcl : (255 - bit) &&& bit = 0)
+    (hok : ((Act.intervals f g bit true).run k tab o (.text (some v)) tok).ret.isOk = true) :
+    let o' := ((Act.intervals f g bit true).run k tab o (.text (some v)) tok).obj
+    let shown : Val := if hasBit (o'.get g).toInt bit then .str (some logWord) else o'.get f
+    shown ∈ denote tab .countOrLog (o.get f) v ∨ (blank (some v) = true ∧ shown = k.dflt f) := by
+  unfold Act.run at hok ⊢
+  simp only [denote] at hok ⊢
+  rcases convText_cases 'y' v with ⟨hc, hb⟩ | ⟨x, u, u', hc, hs⟩ | ⟨e, hc, hse⟩ | hc
+  · right
+    simp only [hc, ↓reduceIte]
+    have h1 : ((o.put f (k.dflt f)).put g (.int (clearBit (o.get g).toInt bit))).get g = .int (clearBit (o.get g).toInt bit) :=
+      Obj.get_put _ _ _ (by rw [Obj.put_length]; exact hg)
+    have h2 : ((o.put f (k.dflt f)).put g (.int (clearBit (o.get g).toInt bit))).get f = k.dflt f := by
+      rw [Obj.get_put_ne _ _ _ _ hfg, Obj.get_put _ _ _ hf]
+    rw [h1, h2]
+    simp only [Val.toInt, hasBit_clearBit _ _ hcl, Bool.false_eq_true, ↓reduceIte, hb, and_self]
+  · left
+    simp only [hc, hs]
+    have h1 : ((o.put f x).put g (.int (clearBit (o.get g).toInt bit))).get g = .int (clearBit (o.get g).toInt bit) :=
+      Obj.get_put _ _ _ (by rw [Obj.put_length]; exact hg)
+    have h2 : ((o.put f x).put g (.int (clearBit (o.get g).toInt bit))).get f = x := by
+      rw [Obj.get_put_ne _ _ _ _ hfg, Obj.get_put _ _ _ hf]
+    rw [h1, h2]
+    simp only [Val.toInt, hasBit_clearBit _ _ hcl, Bool.false_eq_true, ↓reduceIte, List.mem_singleton]
+  · simp only [hc, hse, Option.getD_some] at hok ⊢
+    by_cases hl : eqNoCaseN v logWord 3 = true
+    · left
+      simp only [hl, ↓reduceIte]
+      have h1 : ((o.put f (.int 0)).put g (.int (setBit (o.get g).toInt bit))).get g = .int (setBit (o.get g).toInt bit) :=
+        Obj.get_put _ _ _ (by rw [Obj.put_length]; exact hg)
+      rw [h1]
+      simp only [Val.toInt, hasBit_setBit _ _ hb0 hbb, ↓reduceIte, List.mem_singleton]
+    · simp [hl, Ret.isOk] at hok
+  · simp [hc, Ret.isOk] at hok
+
+/-- **set then get, one coordinate of a point** (text `x`, `y`): member `f` takes the number, the other
+    coordinate keeps its value -/
+theorem Act.set_get_coord (k : Kind) (tab : List NamedColor) (f : Nat) (o : Obj) (v : Str) (tok : Nat)
+    (hf : f < o.vals.length) (hok : ((Act.conv 'f' f).run k tab o (.text (some v)) tok).ret.isOk = true) :
+    (∃ x u, convScalar 'f' (skipSpaces v) = .val (.flt x) u ∧
+        ((Act.conv 'f' f).run k tab o (.text (some v)) tok).obj.get f = .flt x) ∨
+    (blank (some v) = true ∧ ((Act.conv 'f' f).run k tab o (.text (some v)) tok).obj.get f = k.dflt f) := by
+  unfold Act.run at hok ⊢
+  rcases convText_cases 'f' v with ⟨hc, hb⟩ | ⟨x, u, u', hc, hs⟩ | ⟨e, hc, _⟩ | hc
+  · right; simp only [hc, Obj.get_put _ _ _ hf, hb, and_self]
+  · left
+    have hx : ∃ fl, x = .flt fl := by
+      unfold convScalar at hs
+      simp only [] at hs
+      cases hfl : convFloat 24 128 (skipSpaces v) with
+      | val y w => rw [hfl] at hs; simp only [Conv.val.injEq] at hs; exact ⟨y, hs.1.symm⟩
+      | none => rw [hfl] at hs; cases hs
+      | err e => rw [hfl] at hs; cases hs
+      | unsup => rw [hfl] at hs; cases hs
+    obtain ⟨fl, rfl⟩ := hx
+    exact ⟨fl, u', hs, by simp only [hc, Obj.get_put _ _ _ hf]⟩
+  · simp [hc, Ret.isOk] at hok
+  · simp [hc, Ret.isOk] at hok
+
 /-! ### colours -/
 
 set_option maxRecDepth 100000 in
